@@ -1,7 +1,9 @@
 //! Model-checking harness for the cascette-rs properties C01–C20 (see /verif/DESIGN.md).
 #![allow(clippy::all)]
 
+pub mod crash;
 pub mod props;
 pub mod report;
+pub mod sched;
 pub mod seq;
 pub mod util;
